@@ -344,6 +344,24 @@ func FieldAccesses(fn *ssa.Function, want func(*types.Var) bool) []FieldAccess {
 					}
 				}
 			case *ssa.FieldAddr, *ssa.DebugRef:
+			case *ssa.Return:
+				out = append(out, FieldAccess{Field: f, Base: fa.X, Instr: r, Write: true, How: "addr-returned", Fn: fn})
+			case *ssa.Phi:
+				onlyReturned := r.Referrers() != nil
+				if onlyReturned {
+					for _, r2 := range *r.Referrers() {
+						switch r2.(type) {
+						case *ssa.Return, *ssa.DebugRef:
+						default:
+							onlyReturned = false
+						}
+					}
+				}
+				how := "addr-escapes"
+				if onlyReturned {
+					how = "addr-returned"
+				}
+				out = append(out, FieldAccess{Field: f, Base: fa.X, Instr: r, Write: true, How: how, Fn: fn})
 			default:
 				out = append(out, FieldAccess{Field: f, Base: fa.X, Instr: r, Write: true, How: "addr-escapes", Fn: fn})
 			}
